@@ -709,3 +709,42 @@ Proof.
   - change (s_cond ?x) with (get_part PCond x). rewrite parts_build, !adds_of_app, adds_of_same, !adds_of_other by discriminate. apply app_nil_r.
   - change (s_assign ?x) with (get_part PAssign x). rewrite parts_build, !adds_of_app, adds_of_same, !adds_of_other by discriminate. auto.
 Qed.
+
+(* ------------------------------------------------------------------ instance-level conditional update *)
+Lemma zmem_In_c : forall x l, zmem x l = true <-> In x l.
+Proof.
+  induction l; simpl; [split; [discriminate | tauto]|].
+  rewrite orb_true_iff, IHl, Z.eqb_eq. split; intros [H|H]; auto.
+Qed.
+
+Lemma inst_update_ok : forall keys conds assigns nulled,
+  forallb (wf_add Update PWhere) keys = true -> forallb (wf_add Delete PWhere) keys = true ->
+  forallb (wf_add Update PCond) conds = true -> forallb (wf_add Delete PCond) conds = true ->
+  forallb (wf_add Update PAssign) assigns = true ->
+  let asg := filter (fun c => negb (clause_size c =? 0)) assigns in
+  let u := fst (inst_update_stmts keys conds assigns nulled) in
+  let d := snd (inst_update_stmts keys conds assigns nulled) in
+  map snd (s_cond u) = conds /\ map snd (s_assign u) = asg /\ map snd (s_where u) = keys /\
+  map snd (s_cond d) = delete_conds conds (map clause_field asg) /\ map snd (s_field d) = map CDelField nulled /\
+  map snd (s_where d) = keys /\
+  (forall c, In c (map snd (s_cond d)) <-> In c conds /\ ~ In (clause_field c) (map clause_field asg)) /\
+  bij u /\ bij d.
+Proof.
+  intros keys conds assigns nulled K1 K2 C1 C2 A asg u d. subst u d. unfold inst_update_stmts. fold asg. cbn [fst snd].
+  assert (Hd : forallb (wf_add Delete PField) (map CDelField nulled) = true) by (clear; induction nulled; simpl; auto).
+  assert (Hc : forallb (wf_add Delete PCond) (delete_conds conds (map clause_field asg)) = true) by (apply forallb_filter; auto).
+  assert (P4 : map snd (s_cond (build Delete (map (Add PCond) (delete_conds conds (map clause_field asg)) ++
+                 map (Add PField) (map CDelField nulled) ++ map (Add PWhere) keys))) = delete_conds conds (map clause_field asg)).
+  { change (s_cond ?x) with (get_part PCond x). rewrite parts_build, !adds_of_app, adds_of_same, !adds_of_other by discriminate. apply app_nil_r. }
+  split; [|split; [|split; [|split; [exact P4|split; [|split; [|split; [|split]]]]]]].
+  - change (s_cond ?x) with (get_part PCond x). rewrite parts_build, !adds_of_app, adds_of_same, !adds_of_other by discriminate. apply app_nil_r.
+  - change (s_assign ?x) with (get_part PAssign x). rewrite parts_build, !adds_of_app, adds_of_same, !adds_of_other by discriminate. rewrite app_nil_r. auto.
+  - change (s_where ?x) with (get_part PWhere x). rewrite parts_build, !adds_of_app, adds_of_same, !adds_of_other by discriminate. auto.
+  - change (s_field ?x) with (get_part PField x). rewrite parts_build, !adds_of_app, adds_of_same, !adds_of_other by discriminate. rewrite app_nil_r. auto.
+  - change (s_where ?x) with (get_part PWhere x). rewrite parts_build, !adds_of_app, adds_of_same, !adds_of_other by discriminate. auto.
+  - intros c. rewrite P4. unfold delete_conds. rewrite filter_In. rewrite negb_true_iff. split.
+    + intros [H1 H2]. split; auto. intro Hin. apply zmem_In_c in Hin. rewrite Hin in H2. discriminate.
+    + intros [H1 H2]. split; auto. destruct (zmem (clause_field c) (map clause_field asg)) eqn:E; auto. apply zmem_In_c in E. tauto.
+  - apply stmt_bijection. apply Inv_build. rewrite !forallb_app, !forallb_map_add; auto. apply forallb_filter. auto.
+  - apply stmt_bijection. apply Inv_build. rewrite !forallb_app, !forallb_map_add; auto.
+Qed.
